@@ -188,8 +188,8 @@ def run(case):
     held = []          # (object, index, path, was_first_access)
     mutated_idx = {}   # index -> set(paths) mutated so far
     accessed = set()
-    with warnings.catch_warnings():
-        warnings.simplefilter('ignore')
+    with warnings.catch_warnings(record=True):
+        warnings.simplefilter('always')    # recorded, not printed; never 'ignore': dependencies inspect warnings
         try:
             store = case['store']
             if store == 'new_tuple':
